@@ -453,6 +453,16 @@ fn run_exp(sh: &mut shell::Shell,
             let mut _cr_list = run_exp_while(sh, pair, args, capture);
             cr_list.append(&mut _cr_list);
         }
+
+        // `set -e`: a failure inside a nested block ends the enclosing
+        // blocks (and the script) too, not just the innermost body.
+        if rule != parsers::locust::Rule::CMD && sh.exit_on_error {
+            if let Some(last) = cr_list.last() {
+                if last.status != 0 {
+                    return (cr_list, false, false);
+                }
+            }
+        }
     }
     (cr_list, false, false)
 }
